@@ -318,6 +318,15 @@ func VerifSetBufSize(n int) int {
 	return old
 }
 
+// VerifSetBucketSecs sets the width of an expiry bucket (the package-level
+// tuning variable bucketDurationSecs) for caches created afterwards and returns
+// the previous value.
+func VerifSetBucketSecs(n int64) int64 {
+	old := bucketDurationSecs
+	bucketDurationSecs = n
+	return old
+}
+
 // VerifItemSize is the internal per-item cost.
 func VerifItemSize() int64 { return itemSize }
 
